@@ -3,6 +3,7 @@
 From Coq Require Import ZArith List Bool Lia.
 From Shampoo Require Import Optimizer.
 From ShampooGen Require Import PyPrelude PyPreludeFacts GenC01.
+Import ListNotations.
 Open Scope Z_scope.
 
 (* `step.item() % group[PRECONDITION_FREQUENCY]` raises ZeroDivisionError for a zero frequency; the constructor admits
@@ -25,3 +26,54 @@ Proof.
   destruct (c_graft c); bool_eq.
 Qed.
 Print Assumptions gen_use_grafting_method_eq_model.
+
+(* ---- inverse roots from the override (utils/shampoo_preconditioner_list.py) ---------------------------------- *)
+
+Lemma list_mul_singleton {A B} (z : A) (l : list B) : py_list_mul [z] (py_len l) = List.map (fun _ => z) l.
+Proof.
+  unfold py_list_mul, py_len. rewrite Nat2Z.id. induction l as [|x l IH]; [reflexivity|].
+  cbn [length repeat concat List.map app]. rewrite IH. reflexivity.
+Qed.
+
+(* the shared static method, for any default function: one root per order, as the model's root_of computes it *)
+Theorem gen_get_inverse_roots_with_default_eq_model :
+  forall (ov : root_override) (orders : list nat) (hod : Z -> Z),
+  GenC01.get_inverse_roots_with_default ov (List.map Z.of_nat orders) hod
+  = Ret (List.map (fun o => match ov with
+                            | OvInt z => if z =? 0 then hod (Z.of_nat o) else z
+                            | OvList l => if Nat.leb (length l) o then hod (Z.of_nat o) else nth o l 0
+                            end) orders).
+Proof.
+  intros ov orders hod. unfold GenC01.get_inverse_roots_with_default. destruct ov as [z|l].
+  - apply f_equal. destruct (Z.eqb_spec z 0).
+    + rewrite List.map_map. reflexivity.
+    + rewrite list_mul_singleton, List.map_map. reflexivity.
+  - induction orders as [|o orders IH]; [reflexivity|].
+    cbn [List.map py_mapM]. rewrite IH. clear IH.
+    assert (Hb : (py_len l <=? Z.of_nat o) = Nat.leb (length l) o).
+    { unfold py_len. destruct (Nat.leb_spec (length l) o); [apply Z.leb_le|apply Z.leb_gt]; lia. }
+    rewrite Hb. destruct (Nat.leb_spec (length l) o) as [Hle|Hlt].
+    + rewrite !bind_ret. reflexivity.
+    + rewrite py_index_nat. rewrite (nth_error_nth' l 0 Hlt). rewrite !bind_ret. reflexivity.
+Qed.
+Print Assumptions gen_get_inverse_roots_with_default_eq_model.
+
+(* the two subclasses pass `lambda order: 2 * order` (Shampoo) and `lambda order: 2` (eigenvalue-corrected / SOAP):
+   exactly Optimizer.default_root, hence Optimizer.root_of *)
+Theorem gen_shampoo_get_inverse_roots_eq_model :
+  forall F (c : cfg (F:=F)) (orders : list nat), c_kind c = KShampoo ->
+  GenC01.shampoo_get_inverse_roots (c_override c) (List.map Z.of_nat orders) = Ret (List.map (Optimizer.root_of c) orders).
+Proof.
+  intros F c orders Hk. unfold GenC01.shampoo_get_inverse_roots. rewrite gen_get_inverse_roots_with_default_eq_model.
+  apply f_equal. apply List.map_ext. intro o. unfold Optimizer.root_of, default_root. rewrite Hk. reflexivity.
+Qed.
+Print Assumptions gen_shampoo_get_inverse_roots_eq_model.
+
+Theorem gen_eigcorr_get_inverse_roots_eq_model :
+  forall F (c : cfg (F:=F)) (orders : list nat), c_kind c = KSoap ->
+  GenC01.eigcorr_get_inverse_roots (c_override c) (List.map Z.of_nat orders) = Ret (List.map (Optimizer.root_of c) orders).
+Proof.
+  intros F c orders Hk. unfold GenC01.eigcorr_get_inverse_roots. rewrite gen_get_inverse_roots_with_default_eq_model.
+  apply f_equal. apply List.map_ext. intro o. unfold Optimizer.root_of, default_root. rewrite Hk. reflexivity.
+Qed.
+Print Assumptions gen_eigcorr_get_inverse_roots_eq_model.
